@@ -4,6 +4,7 @@ import subprocess, sys
 out, rel, old, new = sys.argv[1:5]
 count = int(sys.argv[5]) if len(sys.argv) > 5 else 1
 p = '/repo/' + rel
+assert subprocess.run(['git', '-C', '/repo', 'diff', '--quiet']).returncode == 0, 'repo has uncommitted changes'
 s = open(p).read()
 assert s.count(old) >= 1, 'pattern not found'
 if count == 1:
